@@ -63,12 +63,19 @@ Section RBD.
     end.
 
   Definition wrap (x : A * nat) : item := (Some (fst x), snd x).
+  (* the final filter of the top-level call:
+       result = [r for r in result if r[0] is not None and r[1] is not None]
+     It removes the fake revisions -- and also every real entry whose revno is
+     None ([has_revno] false): a revision that is not in the branch. *)
+  Variable has_revno : A -> bool.
   Definition reals (l : list item) : list (A * nat) :=
-    flat_map (fun x => match fst x with Some a => [(a, snd x)] | None => [] end) l.
+    flat_map (fun x => match fst x with
+                       | Some a => if has_revno a then [(a, snd x)] else []
+                       | None => []
+                       end) l.
 
   Definition rbd_fuel (l : list (A * nat)) : nat := S (length l + list_max (map snd l)).
 
-  (* the top-level call: result = [r for r in result if r[0] is not None ...] *)
   Definition reverse_by_depth (l : list (A * nat)) : list (A * nat) :=
     reals (rbd_raw (rbd_fuel l) 0 (map wrap l)).
 
@@ -224,7 +231,9 @@ Definition generate_all (b : branch) (start end_ : option revid) (forward delaye
         | None => inl ini
         end
     end
-  else inl (graph_view b start end_ (negb forward) excl).
+  else if excl && match end_ with None => true | Some _ => false end
+       then inr ValueErrorNone      (* graph.find_unique_ancestors(None, [start_rev_id]) *)
+       else inl (graph_view b start end_ (negb forward) excl).
 
 (* _calc_view_revisions *)
 Definition calc_view (b : branch) (start end_ : option revid) (forward gen_merge delayed excl : bool)
@@ -236,7 +245,10 @@ Definition calc_view (b : branch) (start end_ : option revid) (forward gen_merge
     let slow (_ : unit) : lazy_views :=
       match generate_all b start end_ forward delayed excl with
       | inr e => ([], Some e)
-      | inl vs => (if forward then rebase_merge_depth (reverse_by_depth vs) else vs, None)
+      | inl vs => (if forward
+                   then rebase_merge_depth
+                          (reverse_by_depth (fun a => match snd a with Some _ => true | None => false end) vs)
+                   else vs, None)
       end in
     let single := match end_ with
                   | Some e => if oeqb start end_ && (negb gen_merge || negb (has_merges (br_g b) e))
@@ -340,8 +352,9 @@ Definition olazy (r : list view * option log_error) : obs :=
 
 (* kind "rbd": reverse_by_depth and _rebase_merge_depth on an arbitrary list of (id, depth) *)
 Definition run_rbd (l : list (nat * nat)) : obs :=
-  OL [olist (opair onat onat) (reverse_by_depth l); olist (opair onat onat) (rebase_merge_depth l);
-      olist (opair onat onat) (reverse_by_depth (reverse_by_depth l))].
+  let rbd := reverse_by_depth (fun _ => true) in
+  OL [olist (opair onat onat) (rbd l); olist (opair onat onat) (rebase_merge_depth l);
+      olist (opair onat onat) (rbd (rbd l))].
 
 (* kind "calc": _calc_view_revisions, consumed completely *)
 Definition run_calc (g : dag) (tip start end_ : option revid) (forward gen_merge delayed excl : bool) : obs :=
